@@ -2,20 +2,26 @@
    answer line each.  Fields are separated by one space; every string field is the lowercase hex
    of its bytes, "-" for the empty string.
      m <globhex> <pathhex>              Match.glob_match           -> 1 | 0 | OOF
-     p <g|f> <dirhex> <linehex>         Pattern.pattern_new        -> glob=.. white=.. rel=.. dironly=.. | PANIC
-     c <dirhex> <contenthex>            Pattern.content_to_patterns (SFile dir)
+     p <g|f> <dirhex> <linehex> [<f36>] Pattern.pattern_new        -> glob=.. white=.. rel=.. dironly=.. | PANIC
+     c <dirhex> <contenthex> [<f36>]    Pattern.content_to_patterns (SFile dir)
                                                                     -> <w|i>:<globhex>,... | - | PANIC
-     k <fixed01> <rules> <pathhex>      Model.check_str glob_matches fixed (add_patterns empty_rules ..)
+                                        (f36 = 0|1: the switch fixed_P36 of Pattern.pattern_new_panics, default 0)
+     k <flags> <rules> <pathhex>        Model.check_str35 glob_matches flags (add_patterns empty_rules ..)
                                         rules = <dirhex>:<linehex>,... | -
                                                                     -> NoMatch | Ignore | Whitelist | PANIC
-     w <fixed01> <nthreads> <globalshex> <entries> <sched> <rounds>
+     K <flags> <globalshex> <rules> <pathhex>
+                                        the same on add_patterns (global_rules globals) ..: IgnoreRules::from_global_patterns
+                                        followed by add_patterns
+     flags = <fixed_P17><fixed_P35><fixed_P36>, three characters 0|1 (one character: fixed_P17 only, the others 0)
+     w <flags> <nthreads> <globalshex> <entries> <sched> <rounds>
                                         entries = <d|f><pathhex>[:<contenthex>],... | -   (walkdrv's syntax; children
                                         of a directory are in the order of first appearance)
                                         sched = <thread>.<queuepos>,... | -     then <rounds> rounds of round robin
-                                                                    -> spec=<paths>;serial=<paths>|OOF;par=<paths>;final=<0|1>;wf=<0|1>
+                                                                    -> spec=<paths>;serial=<paths>|OOF;par=<paths>;final=<0|1>;wf=<0|1>;panic=<0|1>
+                                        (panic = Model.walk_panics: the real walk dies in Pattern::new)
                                         (spec and par sorted, serial in the order of the walk; a path is the hex
                                         of its '/'-joined components)
-     t <fixed01> <nthreads> <globalshex> <entries> <events>
+     t <flags> <nthreads> <globalshex> <entries> <events>
                                         events = <thread>.<start|pop|merge|check|push|exit>.<pathhex>[.<verdict>],...
                                         (thread 255 = the thread that called walk_parallel)
                                                                     -> ok <events accepted> <paths> | bad <events accepted> <reason>
@@ -100,6 +106,13 @@ let sorted_paths ps =
 let path_of_field f : BinNums.coq_N list list =
   if f = "-" then [] else Stdlib.List.map bytes_of_string (Stdlib.String.split_on_char '/' (unhex f))
 let bool_of_field = function "1" -> true | "0" -> false | x -> failwith ("bool " ^ x)
+(* (fixed_P17, fixed_P35, fixed_P36) *)
+let flags_of_field f =
+  let b c = match c with '1' -> true | '0' -> false | _ -> failwith ("flags " ^ f) in
+  match Stdlib.String.length f with
+  | 1 -> (b f.[0], false, false)
+  | 3 -> (b f.[0], b f.[1], b f.[2])
+  | _ -> failwith ("flags " ^ f)
 let verdict_of = function
   | "NoMatch" -> Model.NoMatch | "Ignore" -> Model.Ignore | "Whitelist" -> Model.Whitelist
   | x -> failwith ("verdict " ^ x)
@@ -120,38 +133,46 @@ let answer line =
   | ["m"; g; p] ->
     (match Match.glob_match (bytes_of_field g) (bytes_of_field p) with
      | Some true -> "1" | Some false -> "0" | None -> "OOF")
-  | ["p"; kind; dir; l] ->
+  | "p" :: kind :: dir :: l :: opt when Stdlib.List.length opt <= 1 ->
+    let f36 = (match opt with [x] -> bool_of_field x | _ -> false) in
     let l = bytes_of_field l in
-    if Pattern.pattern_new_panics l then "PANIC"
+    if Pattern.pattern_new_panics f36 l then "PANIC"
     else show_pattern (Pattern.pattern_new (source_of kind dir) l)
-  | ["c"; dir; content] ->
+  | "c" :: dir :: content :: opt when Stdlib.List.length opt <= 1 ->
+    let f36 = (match opt with [x] -> bool_of_field x | _ -> false) in
     let content = bytes_of_field content in
-    let rule_lines = Stdlib.List.map Pattern.strip_trailing_blanks
-        (Stdlib.List.filter Pattern.is_rule_line (Pattern.lines content)) in
-    if Stdlib.List.exists Pattern.pattern_new_panics rule_lines then "PANIC"
+    if Pattern.content_panics f36 content then "PANIC"
     else begin
       match Pattern.content_to_patterns (Pattern.SFile (bytes_of_field dir)) content with
       | [] -> "-"
       | ps -> Stdlib.String.concat "," (Stdlib.List.map (fun (p : Pattern.pattern) ->
           (if p.Pattern.p_white then "w:" else "i:") ^ hex_of_bytes p.Pattern.p_glob) ps)
     end
-  | ["k"; fixed; rules; path] ->
-    let fixed = (match fixed with "1" -> true | "0" -> false | _ -> failwith "fixed") in
+  | "k" :: flags :: rest | "K" :: flags :: rest when Stdlib.List.length rest = 2 || Stdlib.List.length rest = 3 ->
+    let (fixed, f35, f36) = flags_of_field flags in
+    let (globals, rules, path) = (match rest with
+        | [r; p] -> (None, r, p)
+        | [g; r; p] -> (Some (bytes_of_field g), r, p)
+        | _ -> failwith "k") in
     let items = if rules = "-" then [] else Stdlib.List.map (fun it ->
         match Stdlib.String.split_on_char ':' it with
         | [d; l] -> (bytes_of_field d, bytes_of_field l)
         | _ -> failwith ("rule " ^ it)) (Stdlib.String.split_on_char ',' rules) in
-    if Stdlib.List.exists (fun (_, l) -> Pattern.pattern_new_panics l) items then "PANIC"
+    let global_panics = (match globals with
+        | Some g -> Stdlib.List.exists (Pattern.pattern_new_panics f36) (Pattern.lines g)
+        | None -> false) in
+    if global_panics || Stdlib.List.exists (fun (_, l) -> Pattern.pattern_new_panics f36 l) items then "PANIC"
     else begin
       match check_string (unhex path) with
       | None -> "PANIC"
       | Some s ->
-        let r = Model.add_patterns Model.empty_rules
+        let r0 = (match globals with Some g -> Model.global_rules g | None -> Model.empty_rules) in
+        let r = Model.add_patterns r0
             (Stdlib.List.map (fun (d, l) -> Pattern.pattern_new (Pattern.SFile d) l) items) in
-        show_verdict (Model.check_str Match.glob_matches fixed r (bytes_of_string s))
+        show_verdict (Model.check_str35 Match.glob_matches fixed f35 r (bytes_of_string s))
     end
-  | ["w"; fixed; nth; globals; entries; sched; rounds] ->
-    let fixed = bool_of_field fixed in
+  | ["w"; flags; nth; globals; entries; sched; rounds] ->
+    let (fixed, f35, f36) = flags_of_field flags in
     let nth = nat_of_int (int_of_string nth) in
     let globals = bytes_of_field globals in
     let (ign, ch) = tree_of_entries entries in
@@ -160,17 +181,18 @@ let answer line =
         | [i; k] -> (nat_of_int (int_of_string i), nat_of_int (int_of_string k))
         | _ -> failwith ("sched " ^ it)) (Stdlib.String.split_on_char ',' sched) in
     let gm = Match.glob_matches in
-    let spec = Model.spec_walk gm fixed globals ign ch in
+    let spec = Model.spec_walk gm fixed f35 globals ign ch in
     let fuel = Datatypes.S (Model.dir_count (Model.Dir (ign, ch))) in
-    let serial = Model.serial_walk gm fixed fuel globals ign ch in
-    let c = Trace.par_walk_drained gm fixed nth globals ign ch sched (nat_of_int (int_of_string rounds)) in
+    let serial = Model.serial_walk gm fixed f35 fuel globals ign ch in
+    let c = Trace.par_walk_drained gm fixed f35 nth globals ign ch sched (nat_of_int (int_of_string rounds)) in
     "spec=" ^ sorted_paths spec
     ^ ";serial=" ^ (match serial with Some l -> show_paths l | None -> "OOF")
     ^ ";par=" ^ sorted_paths c.Model.c_out
     ^ ";final=" ^ (if Model.final c then "1" else "0")
     ^ ";wf=" ^ (if Model.wf_tree (Model.Dir (ign, ch)) then "1" else "0")
-  | ["t"; fixed; nth; globals; entries; events] ->
-    let fixed = bool_of_field fixed in
+    ^ ";panic=" ^ (if Model.walk_panics gm fixed f35 f36 globals ign ch then "1" else "0")
+  | ["t"; flags; nth; globals; entries; events] ->
+    let (fixed, f35, _) = flags_of_field flags in
     let nthreads = int_of_string nth in
     let globals = bytes_of_field globals in
     let (ign, ch) = tree_of_entries entries in
@@ -184,7 +206,7 @@ let answer line =
         | [th; "push"; p] -> Trace.EPush (th_of th, path_of_field p)
         | [th; "exit"; _] -> Trace.EExit (th_of th)
         | _ -> failwith ("event " ^ it)) (Stdlib.String.split_on_char ',' events) in
-    (match Trace.tv_validate Match.glob_matches fixed (nat_of_int nthreads) globals ign ch evs with
+    (match Trace.tv_validate Match.glob_matches fixed f35 (nat_of_int nthreads) globals ign ch evs with
      | (n, Datatypes.Coq_inl out) -> "ok " ^ string_of_n n ^ " " ^ sorted_paths out
      | (n, Datatypes.Coq_inr e) -> "bad " ^ string_of_n n ^ " " ^ show_error e)
   | _ -> failwith ("bad line: " ^ line)
